@@ -299,7 +299,7 @@ pub fn prop_e2e(c: &E2eCase) -> CaseResult {
         std::fs::rename(&tmp, &path).unwrap();
     };
     write_list(&[], canary_listed, false);
-    let timeout = Duration::from_secs(5);
+    let timeout = crate::e2e::reply_wait();
     let ip: IpAddr = "127.0.0.1".parse().unwrap();
     // start the tracker
     enum T {
@@ -464,7 +464,7 @@ pub fn prop_e2e(c: &E2eCase) -> CaseResult {
                 unsafe { libc::kill(libc::getpid(), libc::SIGUSR1) };
                 // wait until the reload took effect: the canary's decision flips
                 let want_canary_allowed = if mode == AccessListMode::Allow { canary_listed } else { !canary_listed };
-                let deadline = Instant::now() + Duration::from_secs(5);
+                let deadline = Instant::now() + crate::e2e::reply_wait();
                 loop {
                     port = port.wrapping_add(1).max(1000);
                     // the canary is announced from a connection of its own for WS (peer id rule)
